@@ -246,6 +246,24 @@ CLAIMS = {
     design_ref="DESIGN.md section 5 C18",
     note="The link between the graph theorem and the code is the reviewed field ranking (static) plus the allocator oracle (dynamic); the real heap graph is not extracted.",
     technique="Lean 4 no-leak theorem for reference counting + regenerated Rc-field inventory + counting-allocator oracle"),
+ "C01": dict(
+    category="proof",
+    text=("The independent source-level reference interpreter is Ink/Source.lean (900 lines of Lean, imports nothing "
+          "from the runtime model): an AST of core Ink and a total function play : Program -> choices -> Transcript "
+          "(lines, per-line tags, offered choices, end status, error kinds, final globals, knot / stitch visit counts). "
+          "Proved about it: 32-bit arithmetic (wrap, range, division faults, equal to the runtime model's), the output "
+          "rules (cleaned lines have no edge or double blanks, no empty lines, idempotent), the structure of a play "
+          "(later choices never change earlier turns: play_prefix; a choice on offer gives exactly one more turn). "
+          "Proved about the runtime model's look-ahead ('effects after a line end happen exactly once'): a step reports a "
+          "line end only by rewinding to the snapshot taken at the line break, so everything executed while looking "
+          "ahead is undone and runs again, once, from that state (continueSingleStep_rewind, stepLoop_newline, "
+          "lookahead_undone). NOT proved (no model of the compiler; partial): that compile+play equals the reference "
+          "interpreter for every program — decided by the oracle: generated core programs x ALL choice sequences to "
+          "depth 4 (5 in the thorough tier), real transcript vs reference transcript, disagreements minimised; 18 "
+          "reproducers of 16 known compiler deviations are replayed as known findings."),
+    design_ref="DESIGN.md section 5 C01",
+    note="The generator stays away from the shapes of the known findings (gen/srcgen.py RESTRICTED).",
+    technique="Lean 4 reference semantics + theorems about it and about the look-ahead (partial) + exhaustive-path differential oracle"),
 }
 
 REASONS_PENDING = "check not built yet in this revision of /verif (see DESIGN.md section 9.1 for the order of work)"
